@@ -1,5 +1,6 @@
 # Translator for the data the model is parameterised by: reads the live library in REPO and writes coq/gen/*.v.
 # Fail-closed: a missing attribute is an exception, reported by the caller as a broken tie.
+import functools
 import json
 import os
 
@@ -10,6 +11,7 @@ def coq_string(s):
     return '"' + s.replace('"', '""') + '"'
 
 
+@functools.lru_cache(maxsize=None)
 def gen_versions():
     from cryptodatahub.tls.version import TlsVersion
     rows = []
@@ -28,6 +30,7 @@ FLAG_CLASSES = [
 ]
 
 
+@functools.lru_cache(maxsize=None)
 def gen_flags():
     import importlib
     res = []
@@ -37,6 +40,7 @@ def gen_flags():
     return res
 
 
+@functools.lru_cache(maxsize=None)
 def all_modules():
     import importlib
     import pkgutil
@@ -56,6 +60,7 @@ def all_subclasses(c):
     return seen
 
 
+@functools.lru_cache(maxsize=None)
 def enum_factories():
     """Concrete NByteEnumParsable factories: name -> (class, width, enum class)."""
     from cryptoparser.common import base
@@ -68,6 +73,7 @@ def enum_factories():
     return dict(sorted(res.items()))
 
 
+@functools.lru_cache(maxsize=None)
 def enum_vectors():
     """Vector classes whose items are coded enum members with an optional TlsInvalidType fallback."""
     from cryptoparser.common import base
@@ -104,6 +110,7 @@ def enum_vectors():
     return dict(sorted(res.items()))
 
 
+@functools.lru_cache(maxsize=None)
 def opaque_enum_factories():
     from cryptoparser.common import base
     all_modules()
@@ -117,6 +124,7 @@ def opaque_enum_factories():
     return dict(sorted(res.items()))
 
 
+@functools.lru_cache(maxsize=None)
 def ssh_name_enums():
     """Item classes of the SSH name-list vectors (string-coded cryptodatahub enums)."""
     from cryptoparser.common import base
@@ -137,6 +145,28 @@ def ssh_name_enums():
     return dict(sorted(res.items()))
 
 
+@functools.lru_cache(maxsize=None)
+def array_classes():
+    """Every concrete ArrayBase subclass of the library with its vector parameters."""
+    from cryptoparser.common import base
+    all_modules()
+    res = {}
+    for c in all_subclasses(base.ArrayBase):
+        if c.__module__.startswith('test') or c.__module__ == 'cryptoparser.common.base':
+            continue
+        try:
+            p = c.get_param()
+        except (NotImplementedError, TypeError):
+            continue
+        kind = [k.__name__ for k in (base.Vector, base.VectorString, base.VectorEnumCodeNumeric, base.VectorEnumCodeString,
+                                     base.VectorParsableDerived, base.VectorParsable, base.Opaque, base.ListParsable)
+                if issubclass(c, k)]
+        res[c.__name__] = dict(cls=c, kind=(kind[0] if kind else 'ArrayBase'), min=int(p.min_byte_num), max=int(p.max_byte_num),
+                               num=int(p.item_num_size), item_size=int(getattr(p, 'item_size', 0) or 0))
+    return dict(sorted(res.items()))
+
+
+@functools.lru_cache(maxsize=None)
 def local_int_enums():
     import enum
     res = []
@@ -217,6 +247,13 @@ def emit_tables():
     lines.append(';\n'.join('  (%s, ((%d, %d, %d), [%s]))' % (coq_string(n), d['min'], d['max'], d['num'], '; '.join(
         '(%s, %s)' % (coq_string(k), coq_string(v.value.code.encode('ascii').hex())) for k, v in d['enum'].__members__.items()))
         for n, d in names.items()))
+    lines.append('].')
+    arrs = array_classes()
+    out['array_params'] = {n: {k: v for k, v in d.items() if k != 'cls'} for n, d in arrs.items()}
+    lines.append('(* every ArrayBase subclass: (class, (kind, (min_byte_num, max_byte_num, item_num_size as computed by the library, item_size or 0))) *)')
+    lines.append('Definition array_params : list (string * (string * (Z * Z * Z * Z))) := [')
+    lines.append(';\n'.join('  (%s, (%s, (%d, %d, %d, %d)))' % (coq_string(n), coq_string(d['kind']), d['min'], d['max'], d['num'], d['item_size'])
+                            for n, d in arrs.items()))
     lines.append('].')
     lines.append('')
     lines.append('Definition flag_tables : list (string * list Z) := [')
